@@ -56,6 +56,9 @@ struct Plan {
   exists: bool,
   sign: bool,
   insert_key: bool,
+  /// per call (same order as the mask): the fault fires on the FIRST occurrence of the call only (mask character `2`); a
+  /// retry of the same call then succeeds.  At the pinned commit no call is made twice, so `2` behaves like `1` there.
+  once: [bool; 8],
 }
 
 thread_local! {
@@ -64,6 +67,36 @@ thread_local! {
   static KEYS: RefCell<Vec<(KeyId, Jwk)>> = RefCell::new(vec![]);
   /// every digest ever offered to insert_key_id
   static DIGESTS: RefCell<Vec<MethodDigest>> = RefCell::new(vec![]);
+}
+
+/// does call number `i` (mask order) fail now?  A first-occurrence fault disarms itself.
+fn fault(i: usize) -> bool {
+  PLAN.with(|p| {
+    let mut p = p.borrow_mut();
+    let hit = match i {
+      0 => p.generate,
+      1 => p.delete_key,
+      2 => p.insert_kid,
+      3 => p.get_kid,
+      4 => p.delete_kid,
+      5 => p.exists,
+      6 => p.sign,
+      _ => p.insert_key,
+    };
+    if hit && p.once[i] {
+      match i {
+        0 => p.generate = false,
+        1 => p.delete_key = false,
+        2 => p.insert_kid = false,
+        3 => p.get_kid = false,
+        4 => p.delete_kid = false,
+        5 => p.exists = false,
+        6 => p.sign = false,
+        _ => p.insert_key = false,
+      }
+    }
+    hit
+  })
 }
 
 struct FK(JwkMemStore);
@@ -101,7 +134,7 @@ fn ierr() -> KeyIdStorageError {
 #[async_trait(?Send)]
 impl JwkStorage for FK {
   async fn generate(&self, key_type: KeyType, alg: JwsAlgorithm) -> KeyStorageResult<JwkGenOutput> {
-    if PLAN.with(|p| p.borrow().generate) {
+    if fault(0) {
       return Err(kerr());
     }
     let out = self.0.generate(key_type, alg).await?;
@@ -116,25 +149,25 @@ impl JwkStorage for FK {
     Ok(out)
   }
   async fn insert(&self, jwk: Jwk) -> KeyStorageResult<KeyId> {
-    if PLAN.with(|p| p.borrow().insert_key) {
+    if fault(7) {
       return Err(kerr());
     }
     self.0.insert(jwk).await
   }
   async fn sign(&self, key_id: &KeyId, data: &[u8], public_key: &Jwk) -> KeyStorageResult<Vec<u8>> {
-    if PLAN.with(|p| p.borrow().sign) {
+    if fault(6) {
       return Err(kerr());
     }
     self.0.sign(key_id, data, public_key).await
   }
   async fn delete(&self, key_id: &KeyId) -> KeyStorageResult<()> {
-    if PLAN.with(|p| p.borrow().delete_key) {
+    if fault(1) {
       return Err(kerr());
     }
     self.0.delete(key_id).await
   }
   async fn exists(&self, key_id: &KeyId) -> KeyStorageResult<bool> {
-    if PLAN.with(|p| p.borrow().exists) {
+    if fault(5) {
       return Err(kerr());
     }
     self.0.exists(key_id).await
@@ -149,19 +182,19 @@ impl KeyIdStorage for FI {
         d.borrow_mut().push(method_digest.clone())
       }
     });
-    if PLAN.with(|p| p.borrow().insert_kid) {
+    if fault(2) {
       return Err(ierr());
     }
     self.0.insert_key_id(method_digest, key_id).await
   }
   async fn get_key_id(&self, method_digest: &MethodDigest) -> KeyIdStorageResult<KeyId> {
-    if PLAN.with(|p| p.borrow().get_kid) {
+    if fault(3) {
       return Err(ierr());
     }
     self.0.get_key_id(method_digest).await
   }
   async fn delete_key_id(&self, method_digest: &MethodDigest) -> KeyIdStorageResult<()> {
-    if PLAN.with(|p| p.borrow().delete_kid) {
+    if fault(4) {
       return Err(ierr());
     }
     self.0.delete_key_id(method_digest).await
@@ -236,12 +269,16 @@ fn parse_mask(t: &str) -> Option<Plan> {
     _ => return None,
   };
   let t = &t[..8];
-  let b: Vec<bool> = t.chars().map(|c| c == '1').collect();
-  if !t.chars().all(|c| c == '0' || c == '1') {
+  let b: Vec<bool> = t.chars().map(|c| c == '1' || c == '2').collect();
+  if !t.chars().all(|c| c == '0' || c == '1' || c == '2') {
     return None;
   }
+  let mut once = [false; 8];
+  for (i, c) in t.chars().enumerate() {
+    once[i] = c == '2';
+  }
   KIND_OF_ERROR.with(|k| k.set(kind));
-  Some(Plan { generate: b[0], delete_key: b[1], insert_kid: b[2], get_kid: b[3], delete_kid: b[4], exists: b[5], sign: b[6], insert_key: b[7] })
+  Some(Plan { generate: b[0], delete_key: b[1], insert_kid: b[2], get_kid: b[3], delete_kid: b[4], exists: b[5], sign: b[6], insert_key: b[7], once })
 }
 
 fn err_kind(e: &SErr) -> &'static str {
@@ -637,6 +674,20 @@ pub fn gen(thorough: bool, seed: u64, out: &mut impl Write) {
             }
           }
         }
+      }
+    }
+    // (a2 / b2) faults that fire on the first occurrence of a call only (a retry of that call would succeed): every single
+    // call and every pair of calls, for generate and for purge of a method with and without references
+    for once in 0..64u32 {
+      if once.count_ones() == 0 || once.count_ones() > 2 {
+        continue;
+      }
+      // mask characters in call order: generate, deleteKey, insertKid, getKid, deleteKid, exists
+      let m: String = (0..8).map(|i| if i < 6 && (once >> i) & 1 == 1 { '2' } else { '0' }).collect();
+      for sc in ["vm", "0"] {
+        writeln!(out, "C09 hist {}{} | gen:{}:1:{} S gen:{}:1:00000000 S", kind, empty, sc, m, sc).unwrap();
+        let refs = if sc == "vm" { "at:F:0.0.1:0 at:F:0.0.1:2 " } else { "" };
+        writeln!(out, "C09 hist {}{} | gen:{}:1:00000000 gen:vm:2:00000000 {}S purge:0.0.1:{} S purge:0.0.1:00000000 S", kind, empty, sc, refs, m).unwrap();
       }
     }
     // (b) purge_method: target embedded in each scope with 0..3 references (general-purpose only), every fault mask
